@@ -1731,4 +1731,10 @@ def switch_bbox_epsg_axis_order""", 'C01.a'),
             if not options.progress_file:""", """        if (options.continue_seed or options.progress_file) and not options.dry_run:
             if not options.progress_file:""", 'no progress store at all in a dry run: equally sound', ['C11']),
 
+    M('M-C07j-revert-D52', 'mapproxy/seed/cachelock.py', """        for lock in cur.fetchall():""", """        for lock in cur:""", 'C07.j', 'revert of fix D52'),
+    M('M-C07j-turn-without-flag', 'mapproxy/seed/cachelock.py', """            if not active_locks and lock['cache_name'] == cache_name and lock['pid'] == pid:""",
+      """            if lock['cache_name'] == cache_name and lock['pid'] == pid:""", 'C07.j', 'own entry grants the lock behind a live holder'),
+    E('E-C07j-list-snapshot', 'mapproxy/seed/cachelock.py', """        for lock in cur.fetchall():""", """        entries = list(cur)
+        for lock in entries:""", 'the queue snapshot taken with list(): equally sound', ['C07']),
+
 ]
